@@ -84,6 +84,8 @@ UNITS['c10'] = {
         ('validity_not_checked', 'if !loader.is_valid(&target) {', 'if false {', ['C10.']),
         ('new_module_not_queued', 'queue.push(m);', '', ['C10.']),
         ('module_not_stored', 'mods.insert(module);', '', ['C10.']),
+        ('popped_node_requeued', 'queue.push(m);', 'queue.push(m); queue.push(n);', ['C10.terminates', 'C10.']),
+        ('known_import_requeued', 'graph.add_edge(*m, n, ());', 'graph.add_edge(*m, n, ()); queue.push(*m);', ['C10.terminates', 'C10.']),
     ],
 }
 
@@ -180,15 +182,15 @@ PROPS = {
                       'there is a duplicate-free node list starting at the base, every node wired to all its import targets (edge import -> importer), a topological order of that graph, '
                       'and the loader log is exactly: one Load+Parse per node in discovery order, then one Compile per node in that order. Load-once, parse-once, compile-once, '
                       'compile-after-imports, no self import / acyclicity (so a cyclic graph can only give Err) and validity of every imported locator are lemmas over that contract. '
-                      'All unwrap/expect sites are proved unreachable.',
+                      'All unwrap/expect sites are proved unreachable, and the work-list loop terminates (lexicographic measure: undiscovered locators, queue length).',
         'level_note': 'Trusted: petgraph Graph::{add_node,add_edge,node_weight} and toposort (Ok ==> topological order; Err ==> node id in range), HashMap via vstd, ModuleSet::{new,insert,get} as a map, '
                       'Locator::join as a function (join_id), Program::imports returns the import strings of the tree, Loader implementations satisfy the ghost-log contract. '
-                      'Termination of the work-list loop is NOT proved (exec_allows_no_decreases_clause). Which error is reported first and the order among independent modules are not decided.',
+                      'Termination of the work list is proved under the stated assumption that the loader can declare only finitely many locators valid (ghost `universe`). Which error is reported first and the order among independent modules are not decided.',
         'design_ref': 'DESIGN.md section 5, C10',
         'explanation': 'Whole real body of load() verified (4 loops, 2 closures, 5 unwrap/expect sites) against an Ok-path contract over a ghost event log; the property clauses are lemmas over that contract.',
-        'assumptions': ['dependency contracts listed in trusted_base', 'the set of valid locators is whatever the Loader says; termination not proved',
+        'assumptions': ['dependency contracts listed in trusted_base', 'termination: the loader\'s universe of valid locators is finite and contains the base (ghost assumption; false for a loader that invents a fresh valid locator forever)',
                         'url normalisation inside Locator::join is trusted (two spellings of one file are one module exactly when join maps them to the same locator)'],
-        'not_decided': ['termination of the work list', 'which error kind is reported when several apply', 'Err-path: that the error names the offending import (E is an opaque From<Error>)'],
+        'not_decided': ['which error kind is reported when several apply', 'Err-path: that the error names the offending import (E is an opaque From<Error>)'],
     },
     'C04': {
         'units': ['lex', 'c07', 'c16'],
